@@ -796,6 +796,10 @@ class Engine(object):
         else:
             res = self.fresh_of_type(ex, c.get("returns", "None"), "ret_" + fq.rsplit(".", 1)[-1], env)
         env["result"] = res
+        if c.get("emits") is not None:
+            # the callee's whole effect on the ghost event trace
+            ev = ex.spec_eval(c["emits"], env)
+            ex.ctx.__dict__.setdefault("trace", []).extend(list(ev.items))
         skip = ()
         top = self.contracts.get(ex.top_fq) if ex.top_fq else None
         if top:
@@ -808,6 +812,10 @@ class Engine(object):
                 ex.ctx.assume(ex.spec_bool(e, env))
             finally:
                 ex.ctx.assume_mode = False
+        # vacuity guard: assuming a callee's postcondition must not make the path contradictory
+        if not ex.ctx.feasible(z3.BoolVal(True)):
+            raise Unsupported("the postcondition assumed for %s is inconsistent with the state at this call "
+                              "(everything after it would be proved vacuously)" % fq)
         return res
 
     def havoc_path(self, ex, env, path, t):
@@ -1139,6 +1147,8 @@ class Engine(object):
             ctx.emit("post", pre + "/result-type", g, None, note="returned %r, declared %s" % (val, rt))
             return
         named_posts = self.norm_named(c.get("ensures"), "ensures")
+        if c.get("emits") is not None:
+            named_posts = named_posts + [("emits-exactly-these-events-in-this-order", "trace_events() == (%s)" % c["emits"])]
         if c.get("result_is"):
             named_posts = [("result-is", "result == (%s)" % c["result_is"])] + named_posts
         for (nm, e) in named_posts:
